@@ -548,6 +548,56 @@ impl Inst for IPmh3aSha {
     }
 }
 
+// ---------------------------------------------------------------- ProbMinHash3aSha on vector keys
+
+/// ProbMinHash3aSha with Vec<u32> keys (each key is a freshly allocated vector: its identity must be its content, never
+/// its address, capacity or length word)
+pub struct IPmh3aShaVec {
+    s: ProbMinHash3aSha<Vec<u32>>,
+}
+impl IPmh3aShaVec {
+    pub fn new(m: usize) -> Self {
+        IPmh3aShaVec { s: ProbMinHash3aSha::new(m.max(2), vec![u32::MAX, 7]) }
+    }
+}
+fn vec_key_of(x: u64) -> Vec<u32> {
+    let mut v = Vec::with_capacity(1 + (x % 5) as usize);
+    v.push(x as u32);
+    if x % 3 == 0 {
+        v.push((x >> 32) as u32 ^ 0xABCD);
+    }
+    v
+}
+impl Inst for IPmh3aShaVec {
+    fn apply(&mut self, op: &Op) -> Applied {
+        let s = &mut self.s;
+        let mut batch = |items: Vec<u64>| {
+            to_applied(g(|| {
+                let mut im: IndexMap<Vec<u32>, f64> = IndexMap::new();
+                for x in &items {
+                    im.insert(vec_key_of(*x), weight_of(*x));
+                }
+                s.hash_weigthed_idxmap(&im);
+                Ok(())
+            }))
+        };
+        match op {
+            Op::Item(x) => batch(vec![*x]),
+            Op::Burst(st, n) => batch((*st..(*st + *n as u64)).collect()),
+            Op::Slice(v) => batch(v.clone()),
+            _ => Applied::Unsupported,
+        }
+    }
+    fn observe(&mut self) -> Result<Vec<u64>, String> {
+        let s = &self.s;
+        g(|| {
+            let mut v: Vec<u64> = s.get_signature().iter().map(|k| k.iter().fold(0xcbf29ce484222325u64, |h, w| (h ^ *w as u64).wrapping_mul(0x100000001b3))).collect();
+            v.extend(fb64(&s.verif_registers()));
+            v
+        })
+    }
+}
+
 // ---------------------------------------------------------------- ProbOrdMinHash2
 
 /// every Slice op is one hash_set call; the observation is the list of all signatures returned so far.
@@ -617,6 +667,8 @@ pub fn catalogue(sizes: &[usize], pin_pomh_seed: bool) -> Vec<Kind> {
             v.push(kind(format!("SetSketcher<u16> params#{} m={}", variant, m), true, false, true, 1, true, move || Box::new(ISet::<u16, FnvHasher>::new(variant, m))));
         }
         v.push(kind(format!("SetSketcher<u16> params#3 (a = 5) m={}", m), true, false, true, 1, true, move || Box::new(ISet::<u16, FnvHasher>::new(3, m))));
+        // a signed register type (the bounds allow it)
+        v.push(kind(format!("SetSketcher<i32> params#0 m={}", m), true, false, true, 1, true, move || Box::new(ISet::<i32, FnvHasher>::new(0, m))));
         v.push(kind(format!("SetSketcher<u32> params#0 m={}", m), true, false, true, 1, true, move || Box::new(ISet::<u32, FnvHasher>::new(0, m))));
         v.push(kind(format!("SetSketcher<u8> params#0 m={} (overflowing registers)", m), true, false, true, 1, true, move || Box::new(ISet::<u8, FnvHasher>::new(0, m))));
         v.push(kind(format!("OptDensMinHash<f64> m={}", m), true, true, false, 1, true, move || Box::new(IOpt::<f64, FnvHasher>::new(m))));
@@ -636,6 +688,7 @@ pub fn catalogue(sizes: &[usize], pin_pomh_seed: bool) -> Vec<Kind> {
             v.push(kind(format!("ProbMinHash3a(HashMap) m={}", m), false, false, false, 1, false, move || Box::new(IPmh3a::new(m, true))));
             v.push(kind(format!("ProbMinHash3aSha(IndexMap) m={}", m), false, false, false, 1, false, move || Box::new(IPmh3aSha::new(m, false))));
             v.push(kind(format!("ProbMinHash3aSha(HashMap) m={}", m), false, false, false, 1, false, move || Box::new(IPmh3aSha::new(m, true))));
+            v.push(kind(format!("ProbMinHash3aSha<Vec<u32>>(IndexMap) m={}", m), false, false, false, 1, false, move || Box::new(IPmh3aShaVec::new(m))));
         }
         for l in [1usize, 2] {
             v.push(kind(format!("ProbOrdMinHash2 m={} l={}", m, l), false, false, false, l, false, move || Box::new(IPomh2::new(m, l, pin_pomh_seed))));
